@@ -46,7 +46,7 @@ Definition ldc_amount (cr : bool) (c : nat) (sum qty : amount) (is_charge : bool
               | None => a1
               end
             else a1 in
-  rescale_up a2 c.
+  apply_rr cr c a2.
 
 Definition ldc_amounts cr c sum qty is_charge (ds : list ldc) : list amount :=
   map (ldc_amount cr c sum qty is_charge) ds.
